@@ -61,3 +61,5 @@ def same_helper(ctx):
     ok = helper_div == helper_jp and len(helper_div) == 1 and div_false and all(e == "encoded" for _c, e in callees["joinpath"])
     ctx.ob(rule, "_url.URL.__truediv__", f"helpers {sorted(callees['__truediv__'])} / {sorted(callees['joinpath'])}", ok,
            "`/` and joinpath() do not reach the same helper with encoded=False by default", sample="both -> _make_child, encoded default False")
+    from ..rules import flow as _flow
+    _flow.f_sink(ctx)       # the path every operation computed is the path the result stores
